@@ -72,6 +72,15 @@ log = logging.getLogger(__name__)
 process_events_semaphore = asyncio.Semaphore(1)
 
 
+def _get_cache_key_items(messages: List[dict]) -> List[tuple]:
+    """Return the (role, content) pairs from which the history cache key is computed."""
+    return [
+        (msg["role"], msg["event"] if msg["role"] == "event" else msg["content"])
+        for msg in messages
+        if msg["role"] in ["user", "assistant", "context", "event"]
+    ]
+
+
 class LLMRails:
     """Rails based on a given configuration."""
 
@@ -108,6 +117,10 @@ class LLMRails:
         # TODO: when we update the interface to allow to return a "state object", this
         #   should be removed
         self.events_history_cache = {}
+
+        # The cache key joins the message contents and is ambiguous (e.g. "a:b" vs. "a", "b"),
+        # so we also keep the messages an entry was computed for and compare them on lookup.
+        self._events_history_cache_messages = {}
 
         # Weather the main LLM supports streaming
         self.main_llm_supports_streaming = False
@@ -476,7 +489,11 @@ class LLMRails:
             p = len(messages) - 1
             while p > 0:
                 cache_key = get_history_cache_key(messages[0:p])
-                if cache_key in self.events_history_cache:
+                if (
+                    cache_key in self.events_history_cache
+                    and self._events_history_cache_messages.get(cache_key)
+                    == _get_cache_key_items(messages[0:p])
+                ):
                     events = self.events_history_cache[cache_key].copy()
                     break
 
@@ -774,6 +791,9 @@ class LLMRails:
                 # Save the new events in the history and update the cache
                 cache_key = get_history_cache_key(messages + [new_message])
                 self.events_history_cache[cache_key] = events
+                self._events_history_cache_messages[cache_key] = _get_cache_key_items(
+                    messages + [new_message]
+                )
             else:
                 output_state = {"events": events}
 
